@@ -995,7 +995,10 @@ class Interp:
                 return self.eval(e.body, env, f)
             if t is False:
                 return self.eval(e.orelse, env, f)
-            return self.join(self.eval(e.body, env, f), self.eval(e.orelse, env, f))
+            refine = getattr(dom, "refine_env", None)
+            env_t = refine(e.test, True, env, self, f) if refine else env
+            env_f = refine(e.test, False, env, self, f) if refine else env
+            return self.join(self.eval(e.body, env_t, f), self.eval(e.orelse, env_f, f))
         if isinstance(e, ast.Call):
             return self.eval_call(e, env, f)
         if isinstance(e, (ast.ListComp, ast.SetComp, ast.GeneratorExp)):
